@@ -197,7 +197,7 @@ def narrow_index_cases(rng, tier):
 
 class Sub2Ind(Family):
     name = "sub2ind_ind2sub"
-    theorems = ("C17_ind2sub_sub2ind", "C17_sub2ind_ind2sub", "C17_sub2ind_lt", "C17_sub2ind_enum",
+    theorems = ("C17_ind2sub_sub2ind", "C17_sub2ind_ind2sub", "C17_sub2ind_injective", "C17_ind2sub_injective", "C17_sub2ind_lt", "C17_sub2ind_enum",
                 "C17_sub2ind_stride", "C17_tt_roundtrip")
 
     def gen(self, rng, tier):
@@ -660,7 +660,7 @@ class Rows(Family):
 
 class KhatriRao(Family):
     name = "khatrirao"
-    theorems = ("C17_khatrirao_entry",)
+    theorems = ("C17_khatrirao_entry", "C17_khatrirao_reverse_entry", "C17_khatrirao_reverse")
 
     def gen(self, rng, tier):
         out = []
